@@ -57,6 +57,9 @@ class PSock(simnet.SimSocket):
         if not self.script:
             raise simnet.Blocked()
         st = self.script.pop(0)
+        if len(st) > 2:
+            # a slow proxy: this piece arrives st[2] ticks after the previous one (each recv returns well within the socket timeout)
+            self.run.clock.ticks += st[2]
         if st[0] == "data":
             assert len(st[1]) <= n
             return st[1]
@@ -210,7 +213,7 @@ def gen(rnd):
     direct = pshape in ("none", "empty", "other_scheme_only")
     # the proxy's reply
     rk = rnd.choice(["200", "200", "200", "status", "status_odd", "unterminated_eof", "oversize", "oversize_lines", "empty", "oserr", "exc", "garbage", "connect_refused", "send_fault",
-                     "interim_then_200", "limit"])
+                     "interim_then_200", "limit", "slow", "slow"])
     status = b"200"
     reply = b""
     script = []
@@ -223,6 +226,19 @@ def gen(rnd):
         reply = b"HTTP/1.1 " + status + b" " + rnd.choice([b"Connection established", b"OK", b"Nope"]) + b"\r\n" + rnd.choice([b"", b"Proxy-Agent: t\r\n", b"Via: 1.1 x\r\nX-A: b\r\n"]) + b"\r\n"
         chunks = scen.chunkings(rnd, reply, rnd.choice(["one", "bytes", "random", "small"]), maxchunk=1024)
         script = [("data", c) for c in chunks]
+    elif rk == "slow":
+        # the answer trickles in over half a minute to several minutes, every single recv returning in time: what it says
+        # decides, not how long it took
+        status = rnd.choice([b"200", b"200", b"407", b"503", b"302"])
+        reply = b"HTTP/1.1 " + status + b" " + rnd.choice([b"Connection established", b"Proxy Authentication Required", b"Busy"]) + b"\r\nVia: 1.1 slow\r\nX-Pad: " + b"p" * rnd.choice([10, 200]) + b"\r\n\r\n"
+        k = rnd.choice([3, 5, 9])
+        cuts = sorted(rnd.sample(range(1, len(reply)), k - 1))
+        pieces = [reply[a:b] for a, b in zip([0] + cuts, cuts + [len(reply)])]
+        gap = rnd.choice([8, 12, 20, 45]) * 1024
+        script = [("data", c, gap) for c in pieces]
+        if status != b"200":
+            script.append(("eof",))
+        expect = "tunnel" if status == b"200" else "fail"
     elif rk == "interim_then_200":
         # the first header block is the proxy's answer: a 1xx block is not a 200, whatever follows it
         reply = b"HTTP/1.1 " + rnd.choice([b"100 Continue", b"102 Processing", b"103 Early Hints", b"101 Switching Protocols", b"199 X"]) + b"\r\n" + rnd.choice([b"", b"X-A: b\r\n"]) + b"\r\n" + \
